@@ -79,9 +79,12 @@ func DrawContact(t *rapid.T, w *world.World, o GenOpts, envTZ string) M {
 		c["timezone"] = tz
 	}
 	if rapid.Bool().Draw(t, "seen") {
-		c["last_seen_on"] = rapid.SampledFrom([]string{"2019-01-01T10:00:00Z", "1999-12-31T23:00:00Z", "2023-07-01T12:00:00.5Z"}).Draw(t, "lastseen")
+		// including one later than any trigger/resume time of a scenario (a contact seen on another channel meanwhile)
+		c["last_seen_on"] = rapid.SampledFrom([]string{"2019-01-01T10:00:00Z", "1999-12-31T23:00:00Z", "2023-07-01T12:00:00.5Z", "2030-01-01T00:00:00Z"}).Draw(t, "lastseen")
 	}
-	urnPool := []string{"tel:+250788123456", "tel:+250788000111", "twitter:bob", "mailto:bob@nyaruka.com", "telegram:12345", "tel:+12065551212", "facebook:12345"}
+	urnPool := []string{"tel:+250788123456", "tel:+250788000111", "twitter:bob", "mailto:bob@nyaruka.com", "telegram:12345", "tel:+12065551212", "facebook:12345",
+		// URNs with a channel affinity: to an existing channel and to one that is gone from the assets
+		"tel:+250788222333?channel=" + world.UUID("channel", 1), "tel:+250788444555?channel=" + world.UUID("channel", 99), "twitter:ann?channel=" + world.UUID("channel", 2)}
 	n := rapid.IntRange(0, 3).Draw(t, "nurns")
 	urns := []string{}
 	seen := map[string]bool{}
